@@ -102,7 +102,7 @@ def c08(R):
                 st = s.solve(k); it, V, ex = reference_run(kind, ns, r, p, g, eps, v0, k, P, test, bsz, nb)
                 if int(st.info.iteration) != it: R.fail("c08.stop_iteration", "solve() stopped at a different iteration than the documented rule", inp, int(st.info.iteration), it); continue
                 if not close(st.values, V, 1e-8): R.fail("c08.values_are_reference_iterates", "returned values != that many reference backups of the initial values", inp, np.asarray(st.values), V); continue
-                if kind == "rvi" and abs(float(st.info.gain) - ex["gain"]) > 1e-8: R.fail("c08.gain_trajectory", "gain differs from the reference iteration", inp, float(st.info.gain), ex["gain"])
+                if kind == "rvi" and not (abs(float(st.info.gain) - ex["gain"]) <= 1e-8): R.fail("c08.gain_trajectory", "gain differs from the reference iteration", inp, float(st.info.gain), ex["gain"])
                 if not ex["converged"] and k >= 3:               # composability: solve(k1) then solve(k2) == solve(k1+k2) when the first call hit its limit
                     k1 = max(1, k // 3); s2 = make(kind, prob, g, eps, bs, test, P); s2.solve(k1); st2 = s2.solve(k - k1)
                     if int(st2.info.iteration) != it or not close(st2.values, V, 1e-8) or not np.array_equal(np.asarray(st2.policy), np.asarray(st.policy)):
@@ -136,11 +136,11 @@ def c01(R):
             if kind == "pi":      # did the last policy evaluation meet its own stopping test?  (identifies the known finding C01-pi-eval-budget)
                 v = np.asarray(st.values); d = Qf(ns, r, p, g, v)[np.arange(N), pol] - v
                 inp["last_evaluation_converged"] = bool((span(d) if test == "span" else float(np.abs(d).max())) < eps * (1 - g) / g)
-            if gap > bound * (1 + 1e-6) + 1e-9: R.fail("c01.policy_near_optimal", f"converged policy misses the a-priori bound {bound:.3g}", inp, gap, bound)
+            if not (gap <= bound * (1 + 1e-6) + 1e-9): R.fail("c01.policy_near_optimal", f"converged policy misses the a-priori bound {bound:.3g}", inp, gap, bound)
             if test == "max_diff":
                 if kind == "pi": dv = float(np.abs(np.asarray(st.values) - vd).max()); lim = eps / g; what = "values not within eps/gamma of the policy's own value"
                 else: dv = float(np.abs(np.asarray(st.values) - vstar).max()); lim = eps; what = "values not within eps of the optimal values"
-                if dv > lim * (1 + 1e-6) + 1e-9: R.fail("c01.values_near", what, inp, dv, lim)
+                if not (dv <= lim * (1 + 1e-6) + 1e-9): R.fail("c01.values_near", what, inp, dv, lim)
     # value magnitudes far above the action gaps (large reward offset; "regardless of ties": a near-tie is not a tie): ring MDP, moving on is optimal for every offset
     for offset in (0.0, 1e6):
         Nr = 4; ns = np.array([[[s_], [(s_ + 1) % Nr]] for s_ in range(Nr)]); r = np.array([[[offset], [offset + 1 + 0.1 * s_]] for s_ in range(Nr)]); p = np.ones((Nr, 2, 1)); g, eps = 0.9, 0.01
@@ -152,7 +152,7 @@ def c01(R):
             st = s.solve(5000); inp = desc(Nr, 2, 1, solver=kind, test=test, gamma=g, epsilon=eps, reward_offset=offset, note="ring: stay pays offset, move on pays offset + 1 + 0.1 s", **tables(ns, r, p)); R.case((kind, test, "offset", offset), {x: inp[x] for x in ("solver", "test", "reward_offset")})
             if int(st.info.iteration) >= 5000: continue
             pol = np.asarray(st.policy)[:, 0]; gap = float((vstar - policy_value(ns, r, p, g, pol)).max())
-            if gap > bound * (1 + 1e-6) + 1e-6 * max(1.0, offset) * 1e-3: R.fail("c01.policy_near_optimal", f"converged policy misses the a-priori bound {bound:.3g} (value magnitude far above the action gaps)", inp, gap, bound)
+            if not (gap <= bound * (1 + 1e-6) + 1e-6 * max(1.0, offset) * 1e-3): R.fail("c01.policy_near_optimal", f"converged policy misses the a-priori bound {bound:.3g} (value magnitude far above the action gaps)", inp, gap, bound)
     # "on convergence" includes runs that were restored from a checkpoint and continued (the bound is about the state the solver stops in)
     import tempfile, shutil, os
     from mdpax.problems import Forest
@@ -174,7 +174,7 @@ def c01(R):
                 s2 = cls.restore(d, new_checkpoint_dir=d + "_r"); st2 = s2.solve(3000)
                 if int(st2.info.iteration) >= k + 3000: continue
                 gap = float((vs - pvalue(np.asarray(st2.policy)[:, 0])).max())
-                if gap > bound * (1 + 1e-6) + 1e-9: R.fail("c01.policy_near_optimal_after_restore", f"a run restored at iteration k and continued to convergence returns a policy that misses the a-priori bound {bound:.3g}", inp, gap, bound)
+                if not (gap <= bound * (1 + 1e-6) + 1e-9): R.fail("c01.policy_near_optimal_after_restore", f"a run restored at iteration k and continued to convergence returns a policy that misses the a-priori bound {bound:.3g}", inp, gap, bound)
     finally:
         shutil.rmtree(base, ignore_errors=True)
     return R
@@ -189,11 +189,11 @@ def c04(R):
         inp = desc(N, A, E, epsilon=eps, max_batch_size=bs, v0=v0, **tables(ns, r, p)); R.case((N, A, E, eps), {x: inp[x] for x in ("N", "A", "E", "epsilon")})
         if int(st.info.iteration) >= 5000: continue
         gstar = optimal_gain_lp(ns, r, p); gain = float(st.info.gain); V = np.asarray(st.values)
-        if abs(gain - gstar) >= eps * (1 + 1e-6) + 1e-9: R.fail("c04.gain_within_eps", "reported gain not within epsilon of the optimal average reward", dict(inp, converged_at=int(st.info.iteration)), gain, gstar)
+        if not (abs(gain - gstar) < eps * (1 + 1e-6) + 1e-9): R.fail("c04.gain_within_eps", "reported gain not within epsilon of the optimal average reward", dict(inp, converged_at=int(st.info.iteration)), gain, gstar)
         gp = policy_gain(ns, r, p, np.asarray(st.policy)[:, 0])
-        if gstar - gp >= eps * (1 + 1e-6) + 1e-9: R.fail("c04.policy_gain_within_eps", "returned policy's average reward not within epsilon of optimal", inp, gp, gstar)
+        if not (gstar - gp < eps * (1 + 1e-6) + 1e-9): R.fail("c04.policy_gain_within_eps", "returned policy's average reward not within epsilon of optimal", inp, gp, gstar)
         res = bellman(ns, r, p, 1.0, V) - V - gain
-        if np.abs(res).max() >= eps * (1 + 1e-6) + 1e-9: R.fail("c04.aroe_residual", "values do not solve the average-reward optimality equation within epsilon", inp, float(np.abs(res).max()), eps)
+        if not (np.abs(res).max() < eps * (1 + 1e-6) + 1e-9): R.fail("c04.aroe_residual", "values do not solve the average-reward optimality equation within epsilon", inp, float(np.abs(res).max()), eps)
     # ... nor of how often solve() was called: again on the converged solver, and in chunks of one sweep
     for t, N, A, E, ns, r, p in mdps(2, unichain=True):
         if E < 2: ns, r, p = rand_mdp(rng, N, A, 2, unichain=True); E = 2
@@ -225,7 +225,7 @@ def c04(R):
                 if how == "restore": s2 = RVI.restore(d, new_checkpoint_dir=d + "_r")
                 else: s2 = RVI(Forest(S=5), epsilon=eps, verbose=0, checkpoint_dir=d + "_l", checkpoint_frequency=1); s2.load_checkpoint(d)
                 st2 = s2.solve(2000)
-                if abs(float(st2.info.gain) - gref) >= eps * (1 + 1e-6) + 1e-9: R.fail("c04.gain_after_restore", f"{how}() at iteration k followed by solve() reports a gain that is not within epsilon of the one an uninterrupted run reports", dict(inp, how=how), float(st2.info.gain), gref)
+                if not (abs(float(st2.info.gain) - gref) < eps * (1 + 1e-6) + 1e-9): R.fail("c04.gain_after_restore", f"{how}() at iteration k followed by solve() reports a gain that is not within epsilon of the one an uninterrupted run reports", dict(inp, how=how), float(st2.info.gain), gref)
     finally:
         shutil.rmtree(base, ignore_errors=True)
     return R
@@ -245,7 +245,7 @@ def c05(R):
                 one = np.asarray(s2._calculate_policy_values(jnp.array(pol), jnp.array(v0))); R.case((N, A, E, test, "backup", bs2), None)
                 if one.shape != (N,) or not close(one, ref): R.fail("c05.policy_backup", "one evaluation sweep != one-step value under each state's own policy action", dict(inp, max_batch_size=bs2), one, ref); break
             ev = np.asarray(s._evaluate_policy(jnp.array(pol), jnp.array(v0))); exact = policy_value(ns, r, p, g, pol[:, 0])
-            if test == "max_diff" and np.abs(ev - exact).max() >= eps / g: R.fail("c05.evaluation_accuracy", "evaluation not within eps/gamma of the exact policy value", inp, float(np.abs(ev - exact).max()), eps / g)
+            if test == "max_diff" and not (np.abs(ev - exact).max() < eps / g): R.fail("c05.evaluation_accuracy", "evaluation not within eps/gamma of the exact policy value", inp, float(np.abs(ev - exact).max()), eps / g)
             # n_changed counts states whose action VECTOR differs in any component: perturb only the second component of some rows
             s.policy = jnp.array(pol); s.values = jnp.array(v0); newp, n_changed = s._iteration_step(); newp = np.asarray(newp)
             cnt = int((newp != pol).any(1).sum())
@@ -328,7 +328,7 @@ def c07(R):
             if g == 1.0 and ex["converged"]:
                 hist = np.asarray(st.info.value_history); hi = int(st.info.history_index); prev = hist[(hi + 1) % (P + 1)]
                 gstar = optimal_gain_lp(ns, r, p); comp = (V - prev) / P
-                if np.abs(comp - gstar).max() > eps / P * (1 + 1e-6) + 1e-9: R.fail("c07.gain_bracket", "(V_n - V_(n-P))/P not within eps/P of the optimal gain", inp, comp, gstar)
+                if not (np.abs(comp - gstar).max() <= eps / P * (1 + 1e-6) + 1e-9): R.fail("c07.gain_bracket", "(V_n - V_(n-P))/P not within eps/P of the optimal gain", inp, comp, gstar)
         # the first iteration at which the test may fire (n == period) reads the slot holding the INITIAL values: tolerance just above the true measure there
         for P, g in [(2, 1.0), (3, 0.9)]:
             Vs = [np.array(v0, dtype=float)]
